@@ -226,3 +226,54 @@ c.loop(("hasattr(fn, '__wrapped__')", None), [Clause(
     'still_on_the_wrapped_chain_of_the_start', lambda x, k:
     unwrapped(sym.to_val(x.env.fn)) == unwrapped(_start_fn(x)))])
 register(c)
+
+
+# ---- _get_kwarg_defaults against the signature (C07, C10) -----------------------------------------
+# Second view (callers use the abstract `kwarg_defaults(fn)` of c_registration.py): the map is
+# exactly "parameter -> default the signature gives it": positional defaults align with the END
+# of args, keyword-only defaults are added (and win).
+p_ = z3.Const('p!kd', sym.Str)
+c = Contract('config.py::_get_kwarg_defaults#signature', ['C07', 'C10'])
+c.target = 'config.py::_get_kwarg_defaults'
+c.param('fn', KVal)
+c.result = ParamDict
+c.local_kinds = {'arg_vals': ParamDict, 'default_kwarg_names': StrList}
+
+
+def _sp(x):
+  return argspec(x.a.fn.e)
+
+
+def _pos_default_index(x, i):
+  """args[i] has a positional default (the defaults align with the end of args)."""
+  sp = _sp(x)
+  d = sp.fields['defaults']
+  n = sp.fields['args'].len
+  return z3.And(z3.Not(d.is_none), d.inner.len > 0, n - d.inner.len <= i, i < n, 0 <= i)
+
+
+def _kwd(x):
+  return _sp(x).fields['kwonlydefaults']
+
+
+def _has_kwd(x, p):
+  k = _kwd(x)
+  return z3.And(z3.Not(k.is_none), k.inner.dom[p])
+
+
+c.ensure('keys_are_the_parameters_with_a_default', lambda x: sym.forall(
+    [p_], x.result.dom[p_] == z3.Or(
+        _has_kwd(x, p_),
+        z3.Exists([i_], z3.And(_pos_default_index(x, i_), _sp(x).fields['args'].arr[i_] == p_))),
+    patterns=[x.result.dom[p_]]))
+c.ensure('keyword_only_defaults_win', lambda x: sym.forall(
+    [p_], z3.Implies(_has_kwd(x, p_), x.result.val[p_] == _kwd(x).inner.val[p_]),
+    patterns=[x.result.val[p_]]))
+c.ensure('positional_defaults_align_with_the_end_of_the_parameter_list', lambda x: sym.forall(
+    [i_], z3.Implies(
+        z3.And(_pos_default_index(x, i_), z3.Not(_has_kwd(x, _sp(x).fields['args'].arr[i_]))),
+        x.result.val[_sp(x).fields['args'].arr[i_]] == _sp(x).fields['defaults'].inner.arr[
+            i_ - (_sp(x).fields['args'].len - _sp(x).fields['defaults'].inner.len)]),
+    patterns=[_sp(x).fields['args'].arr[i_]]))
+c.raises_only_listed = True
+register(c)
